@@ -282,6 +282,9 @@ func (t *trTranslator) needSumType(u *trUnit, n *types.Named, pos token.Pos) {
 
 // typeSwitch: switch t := x.(type) { case *T: … default: … }
 func (c *trCtx) typeSwitch(x *ast.TypeSwitchStmt, k trK) trLines {
+	if out, ok := c.createTypeSwitch(x, k); ok {
+		return out // on the `any` of the syntax tree (trans_units_create.go)
+	}
 	if x.Init != nil {
 		trFail(x.Pos(), "type switch with an init statement is outside the subset")
 	}
